@@ -458,16 +458,14 @@ impl<T: BitWrite> PackedWrite for T {
         value: i64,
     ) -> Result<(), Error> {
         let range = upper_bound - lower_bound;
-        if range > 0 {
-            if value < lower_bound || value > upper_bound {
-                Err(ErrorKind::ValueNotInRange(value, lower_bound, upper_bound).into())
-            } else {
-                self.write_non_negative_binary_integer(
-                    None,
-                    Some(range as u64),
-                    (value - lower_bound) as u64,
-                )
-            }
+        if value < lower_bound || value > upper_bound {
+            Err(ErrorKind::ValueNotInRange(value, lower_bound, upper_bound).into())
+        } else if range > 0 {
+            self.write_non_negative_binary_integer(
+                None,
+                Some(range as u64),
+                (value - lower_bound) as u64,
+            )
         } else {
             Ok(())
         }
